@@ -422,6 +422,19 @@ def run(ctx):
         # v1 hash kept as hex text, which ChainLog cannot reproduce
         "v1-migrated-rows": [impl.get(i["id"]) for i in kinds.get("v1", [])]}
 
+    # a DELETE of a metadata key through the real router with raw / percent-encoded bytes in the path: whatever the API ACCEPTS becomes a
+    # log entry, and that entry must read back as written and re-hash (C13 has no exception for what came in through a path)
+    for i in kinds.get("keybytes", []):
+        o = impl.get(i["id"]) or {}
+        if o.get("reached_backend") and (o.get("read_back_same") is False or o.get("rehash_same") is False):
+            ctx.violation({"property": "C13", "class": "entry-not-readable-back", "cause": "bytes-in-the-path", "position": i.get("pos", "key"),
+                           "valid_utf8_at_backend": bool(o.get("at_backend_valid_utf8"))},
+                          "DELETE …/metadata/{key} with the bytes %s as %s answers %s and writes a DELETE_METADATA entry that does not read back as written "
+                          "(stored %s, read back %s) — its recomputed hash %s the stored one" % (
+                              i["hex"], i.get("pos", "key"), o.get("status"), o.get("at_backend_hex"), o.get("read_back_hex"),
+                              "equals" if o.get("rehash_same") else "differs from"),
+                          {"area": "logrt", "input": {k: v for k, v in i.items() if k not in ("id", "corpus")}, "observed": o})
+
     # L3 — the property itself on the implementation's outputs
     seen, nontrivial, n_entries, n_refused = set(), 0, 0, 0
     dist = {"log": {}, "chain_length": {}, "features": {}, "decode": {}, "time_cases": {"accepted": 0, "refused": 0},
@@ -506,12 +519,11 @@ def run(ctx):
         "('value too long for type character varying'): InsertLogs fails and no such entry is ever stored. NOT EXECUTED HERE: the table of the harness keeps "
         "a key of any length, and the code is held to: what InsertLogs hands to the database is exactly the entry that was hashed (longer keys included: "
         "coverage.input_distribution.idempotency_key_length_in_characters)" % (facts["schema"], facts["schema_source"], facts["struct_tag"]),
-        "strings are valid UTF-8 (Lean strings are Unicode scalar sequences). The API guarantees it for everything that comes out of a JSON body, NOT for "
-        "the path parameters of DELETE /{ledger}/accounts/{address}/metadata/{key}: the percent-decoded bytes of {address} and {key} reach the commander "
-        "unchecked (observed on each run through http.ReadRequest + the real v2 router: coverage.excluded_points_observed.bytes-in-the-path-of-delete-metadata). "
-        "`…/metadata/a%FF` is answered 204; the DELETE_METADATA entry is hashed over the escape \\ufffd that encoding/json writes for the bad byte, stored as "
-        "that escape (valid jsonb: PostgreSQL accepts it), read back as U+FFFD, and its recomputed hash differs from the stored one. Such an entry of the "
-        "UNCHANGED code cannot be re-verified; it lies outside the model's strings, is reported as an observation of round 4 and is not counted by this check",
+        "strings are valid UTF-8 (Lean strings are Unicode scalar sequences). The API guarantees it: everything that comes out of a JSON body is valid "
+        "after decoding, addresses and assets are validated, and the path parameters of DELETE …/metadata/{key} — the only percent-decoded bytes that "
+        "used to reach the commander unchecked (…/metadata/a%FF was answered 204 and wrote an entry that could not be re-verified: repaired by the fix "
+        "commit recorded as F35) — are now refused when they are not text. The harness sends such bytes through http.ReadRequest + the real v2 router on "
+        "every run (kind keybytes) and this check counts an accepted one whose entry does not read back as a violation",
         "transaction ids in set/delete-metadata targets are in [0, 2^64): ids are allocated sequentially from 0 (the excluded points 2^64, 2^70, -1 are "
         "run on the real code: ParseUint error, as the model predicts; not counted as violations)",
         "every ledger.Time the engine handles is UTC on a microsecond: Now() and ParseTime produce nothing else (accepted_wf), so Logs.ToCore's "
